@@ -62,7 +62,7 @@ def _glob_truth(pattern, recursive):
     return sorted(SIMFS._glob(os.path.normpath(pattern), recursive))
 
 
-def gen_repo_world(t, family):
+def gen_repo_world(t, family, prop=None):
     w = RepoWorld()
     w.family = family
     w.qualified = family in QUALIFIED
@@ -70,11 +70,12 @@ def gen_repo_world(t, family):
     paths = []
     # two languages: files f<odd>.n belong to a second registered language (another metamodel instance that does not
     # declare the model parameters p1/p2); imports cross the language border in both directions
-    w.two_langs = family not in GR and t.chance(1, 4, "two-languages")
+    # (C18 is also about "any surviving repository": more worlds with a second language that owns a repository)
+    w.two_langs = family not in GR and t.chance(1, 2 if prop == "C18" else 4, "two-languages")
     w.tools = t.chance(1, 3, "tools-support")
     # the second language may have a global repository of its own: a file loaded directly with it is served from
     # there when a model of the first language imports it later
-    w.mm2_repo = w.two_langs and t.chance(1, 2, "second-language-has-its-own-repository")
+    w.mm2_repo = w.two_langs and t.chance(3 if prop == "C18" else 1, 4 if prop == "C18" else 2, "second-language-has-its-own-repository")
     w.unicode_names = t.chance(1, 4, "decomposed-unicode-in-file-names")
     for i in range(n):
         d = "" if i == 0 and not t.chance(1, 4, "main-in-sub") else t.pick(DIRS, "dir")
@@ -643,7 +644,7 @@ def run(ctx):
     prop = ctx.prop
     fam = t.pick(FAMILIES, "family")
     global_repo = t.chance(1, 2, "global-repo")
-    w = gen_repo_world(t, fam)
+    w = gen_repo_world(t, fam, prop)
     perm_glob = t.chance(1, 2, "glob-order")
     if perm_glob:
         def order(res):
@@ -915,7 +916,18 @@ def op_corrupt_cycle(ctx, prop, sysm, w, F, params, cache, famtag, global_repo, 
         return True
     X = t.pick(cands, "failing-file") if force is None else force[0]
     served = [f for f in new if f != F and f in sysm.cache2]
-    late = force is None and served and prop == "C18" and t.chance(2, 3, "fail-late-while-another-repository-serves-an-import")
+    bias = t.pick(["late", "late", "import-fails-twice", None], "bias-while-another-repository-serves-an-import") \
+        if (force is None and served and prop == "C18") else None
+    late = bias == "late"
+    twice_in_import = None
+    if bias == "import-fails-twice":
+        # an import that fails while it is being loaded (the clean-up of models under construction), two attempts in
+        # a row: the first one leaves the served model in this language's repository, the second one starts from there
+        imps = [f for f in cands if f != F]
+        if imps:
+            twice_in_import = t.pick(imps, "failing-import")
+            X = twice_in_import
+            ctx.probe("import-fails-twice-while-another-repository-serves-an-import")
     if late:
         # an import of this load is served from the second language's own repository: fail as late as possible (the
         # model processor of the main file), when every cleanup path has that model in its hands
@@ -934,6 +946,8 @@ def op_corrupt_cycle(ctx, prop, sysm, w, F, params, cache, famtag, global_repo, 
     kind = t.pick(kinds, "corruption") if force is None else force[1]
     if late:
         kind = t.pick(["modelproc", "objproc", "modelproc"], "late-corruption")
+    if twice_in_import:
+        kind = "syntax"
     if kind not in kinds:
         return True
     fe = w.files[X]
@@ -982,96 +996,103 @@ def op_corrupt_cycle(ctx, prop, sysm, w, F, params, cache, famtag, global_repo, 
     w.install(SIMFS)
     ctx.fired(kind)
     ctx.sample["ops"].append(["corrupt", kind, os.path.relpath(X, ROOT), role])
-    # ---- the failing attempt
-    am = sysm.all_models()
-    snap = [(k, id(v)) for k, v in am.filename_to_model.items()] if am is not None else None
-    sysm.opens.clear()
-    sysm.sched.resolved.clear()
-    sysm.sched.calls.clear()
-    if kind in ("objproc", "modelproc"):
-        sysm.proc_exc = t.pick(["tx", "tx", "value", "app"], "processor-raises")
-    if kind == "objproc":
-        sysm.fail_objproc_for = "<anon>" if (anon and X == F) else X
-    elif kind == "modelproc":
-        sysm.fail_modelproc_for = "<anon>" if (anon and X == F) else X
-    err = None
-    w.inner_suspended = kind == "never"
-    am2 = sysm.mm2._tx_model_repository.all_models if getattr(w, "mm2_repo", False) and sysm.mm2 is not None else None
-    snap2 = [(k, id(v)) for k, v in am2.filename_to_model.items()] if am2 is not None else None
-    try:
-        model = do_load(sysm, w, F, params, entry)
-        outcome = "ok"
-        del model
-    except Budget:
-        ctx.violate("C09", "non-termination", famtag, "budget")
-        return False
-    except TextXError as e:
-        outcome = "error"
-        err = dump_error(e)
-        etype = type(e)
-    except Exception as e:
-        # the processor's own exception reaching the caller is the expected failure of that load
-        own = kind in ("objproc", "modelproc") and sysm.proc_exc != "tx" and \
-            type(e) is (ValueError if sysm.proc_exc == "value" else InjectedProcError) and str(e) == "injected"
-        outcome = "error" if own else "crash"
-        err = dump_error(e)
-    ctx.ev("attempt", kind, role, outcome, err)
-    fclass = f"{kind}/{role}/{famtag}" + (f"/raises-{sysm.proc_exc}" if kind in ("objproc", "modelproc") and sysm.proc_exc != "tx" else "")
-    if outcome == "ok":
-        ctx.violate(prop if prop in ("C18", "C28") else "C18", "corrupted-load-succeeds", fclass,
-                    f"{kind} in {os.path.relpath(X, ROOT)} ({role}) did not make the load of "
-                    f"{os.path.relpath(F, ROOT)} fail")
-    elif outcome == "crash":
-        ctx.violate("C28" if prop == "C28" else "C18", "non-textx-error", fclass, f"load raised {err}")
-    else:
-        ctx.probe("failed:" + kind + ":" + role)
-        if prop in ("C18", "C28"):
-            ctx.nontrivial = True
-        # ---- C28 location
-        if kind in ("syntax", "dangling", "never", "ambiguous"):
-            check_location(ctx, w, X, kind, target, err, fclass, F if anon else None, F in new)
-    # ---- C18: repositories equal the pre-attempt snapshot
-    if outcome != "ok":
+    # ---- the failing attempt (sometimes made twice in a row: what the first failure leaves behind is the state
+    # the second one starts from)
+    nattempts = 2 if (force is None and prop == "C18" and t.chance(1, 3, "the-failing-load-is-tried-twice")) else 1
+    if twice_in_import:
+        nattempts = 2
+    for attempt in range(nattempts):
+        if attempt:
+            ctx.probe("failing-load-tried-twice")
         am = sysm.all_models()
-        if am is not None:
-            now = [(k, id(v)) for k, v in am.filename_to_model.items()]
-            # (a complete model that the second language's own repository held before the attempt may get registered)
-            before_ids = {i for _, i in snap} | {id(m) for m in sysm.cache2.values()}
-            # no model of the failed attempt may remain (new objects), and every file cached earlier must still be
-            # there.  String models without a file name are registered as "anonymous<i>" and a later string model
-            # takes over the slot of an earlier one (has_model() compares abspath("anonymous0") with the raw key) -
-            # that quirk happens on successful loads too and is not what this property is about.
-            extra = [os.path.relpath(k, ROOT) if os.path.isabs(k) else k for k, i in now if i not in before_ids]
-            lost = [os.path.relpath(k, ROOT) for k, i in snap if os.path.isabs(k) and (k, i) not in now]
-            if extra or lost:
-                ctx.violate("C18", "repo-clean-after-failure", fclass,
-                            f"after the failed load the global repository has extra {extra}, lost {lost}")
-                for k, i in now:
-                    if i not in before_ids:
-                        del am.filename_to_model[k]
-        if am2 is not None:
-            # the second language's own global repository is a surviving repository too: what it cached before the
-            # attempt stays, nothing the attempt loaded remains
-            now2 = [(k, id(v)) for k, v in am2.filename_to_model.items()]
-            extra2 = [os.path.relpath(k, ROOT) for k, i in now2 if (k, i) not in snap2]
-            lost2 = [os.path.relpath(k, ROOT) for k, i in snap2 if (k, i) not in now2]
-            if extra2 or lost2:
-                ctx.violate("C18", "other-language-repository-clean", fclass,
-                            f"after the failed load the second language's repository has extra {extra2}, lost {lost2}")
-                for k, i in now2:
-                    if (k, i) not in snap2:
-                        del am2.filename_to_model[k]
-                for k, i in snap2:
-                    if (k, i) not in now2 and k in sysm.cache2:
-                        am2.filename_to_model[k] = sysm.cache2[k]
-        for f, m in cache.items():
-            rep = getattr(m, "_tx_model_repository", None)
-            if rep is not None:
-                names = {fname(x) for x in rep.all_models}
-                if not names <= set(cache) | {None} | set(sysm.cache2):
-                    ctx.violate("C18", "surviving-repository-clean", fclass,
-                                f"repository of cached {os.path.relpath(f, ROOT)} holds models of the failed attempt")
-                    break
+        snap = [(k, id(v)) for k, v in am.filename_to_model.items()] if am is not None else None
+        sysm.opens.clear()
+        sysm.sched.resolved.clear()
+        sysm.sched.calls.clear()
+        if kind in ("objproc", "modelproc"):
+            sysm.proc_exc = t.pick(["tx", "tx", "value", "app"], "processor-raises")
+        if kind == "objproc":
+            sysm.fail_objproc_for = "<anon>" if (anon and X == F) else X
+        elif kind == "modelproc":
+            sysm.fail_modelproc_for = "<anon>" if (anon and X == F) else X
+        err = None
+        w.inner_suspended = kind == "never"
+        am2 = sysm.mm2._tx_model_repository.all_models if getattr(w, "mm2_repo", False) and sysm.mm2 is not None else None
+        snap2 = [(k, id(v)) for k, v in am2.filename_to_model.items()] if am2 is not None else None
+        try:
+            model = do_load(sysm, w, F, params, entry)
+            outcome = "ok"
+            del model
+        except Budget:
+            ctx.violate("C09", "non-termination", famtag, "budget")
+            return False
+        except TextXError as e:
+            outcome = "error"
+            err = dump_error(e)
+            etype = type(e)
+        except Exception as e:
+            # the processor's own exception reaching the caller is the expected failure of that load
+            own = kind in ("objproc", "modelproc") and sysm.proc_exc != "tx" and \
+                type(e) is (ValueError if sysm.proc_exc == "value" else InjectedProcError) and str(e) == "injected"
+            outcome = "error" if own else "crash"
+            err = dump_error(e)
+        ctx.ev("attempt", kind, role, outcome, err)
+        fclass = f"{kind}/{role}/{famtag}" + (f"/raises-{sysm.proc_exc}" if kind in ("objproc", "modelproc") and sysm.proc_exc != "tx" else "")
+        if outcome == "ok":
+            ctx.violate(prop if prop in ("C18", "C28") else "C18", "corrupted-load-succeeds", fclass,
+                        f"{kind} in {os.path.relpath(X, ROOT)} ({role}) did not make the load of "
+                        f"{os.path.relpath(F, ROOT)} fail")
+        elif outcome == "crash":
+            ctx.violate("C28" if prop == "C28" else "C18", "non-textx-error", fclass, f"load raised {err}")
+        else:
+            ctx.probe("failed:" + kind + ":" + role)
+            if prop in ("C18", "C28"):
+                ctx.nontrivial = True
+            # ---- C28 location
+            if kind in ("syntax", "dangling", "never", "ambiguous"):
+                check_location(ctx, w, X, kind, target, err, fclass, F if anon else None, F in new)
+        # ---- C18: repositories equal the pre-attempt snapshot
+        if outcome != "ok":
+            am = sysm.all_models()
+            if am is not None:
+                now = [(k, id(v)) for k, v in am.filename_to_model.items()]
+                # (a complete model that the second language's own repository held before the attempt may get registered)
+                before_ids = {i for _, i in snap} | {id(m) for m in sysm.cache2.values()}
+                # no model of the failed attempt may remain (new objects), and every file cached earlier must still be
+                # there.  String models without a file name are registered as "anonymous<i>" and a later string model
+                # takes over the slot of an earlier one (has_model() compares abspath("anonymous0") with the raw key) -
+                # that quirk happens on successful loads too and is not what this property is about.
+                extra = [os.path.relpath(k, ROOT) if os.path.isabs(k) else k for k, i in now if i not in before_ids]
+                lost = [os.path.relpath(k, ROOT) for k, i in snap if os.path.isabs(k) and (k, i) not in now]
+                if extra or lost:
+                    ctx.violate("C18", "repo-clean-after-failure", fclass,
+                                f"after the failed load the global repository has extra {extra}, lost {lost}")
+                    for k, i in now:
+                        if i not in before_ids:
+                            del am.filename_to_model[k]
+            if am2 is not None:
+                # the second language's own global repository is a surviving repository too: what it cached before the
+                # attempt stays, nothing the attempt loaded remains
+                now2 = [(k, id(v)) for k, v in am2.filename_to_model.items()]
+                extra2 = [os.path.relpath(k, ROOT) for k, i in now2 if (k, i) not in snap2]
+                lost2 = [os.path.relpath(k, ROOT) for k, i in snap2 if (k, i) not in now2]
+                if extra2 or lost2:
+                    ctx.violate("C18", "other-language-repository-clean", fclass,
+                                f"after the failed load the second language's repository has extra {extra2}, lost {lost2}")
+                    for k, i in now2:
+                        if (k, i) not in snap2:
+                            del am2.filename_to_model[k]
+                    for k, i in snap2:
+                        if (k, i) not in now2 and k in sysm.cache2:
+                            am2.filename_to_model[k] = sysm.cache2[k]
+            for f, m in cache.items():
+                rep = getattr(m, "_tx_model_repository", None)
+                if rep is not None:
+                    names = {fname(x) for x in rep.all_models}
+                    if not names <= set(cache) | {None} | set(sysm.cache2):
+                        ctx.violate("C18", "surviving-repository-clean", fclass,
+                                    f"repository of cached {os.path.relpath(f, ROOT)} holds models of the failed attempt")
+                        break
     # ---- repair and reload
     w.inner_suspended = False
     _undo(w, kind, target, sysm)
